@@ -411,6 +411,72 @@ theorem C15_per_request (f : Facts) (tr : Transport) (h : Req → Out)
     serveAll f tr h (before ++ x :: after) = serveAll f tr h before ++ serve f tr x.1 h x.2 :: serveAll f tr h after := by
   simp [serveAll]
 
+/-! ## the other constructor options: their order is irrelevant -/
+
+private theorem append_ne_of_last (n suf c : Text) (x y : Nat) (hs : suf.getLast? = some x)
+    (hc : c.getLast? = some y) (hxy : x ≠ y) : n ++ suf ≠ c := by
+  intro h
+  have h2 : (n ++ suf).getLast? = some x := by
+    rw [List.getLast?_append, hs]; rfl
+  rw [h, hc] at h2
+  exact hxy (Option.some.inj h2).symm
+
+/-- When the writers of the field are exactly the constructors, no option — whatever its name — replaces the handler. -/
+private theorem no_option_replaces (writers : List Text) (hw : handlerNotReplaced writers = true) (name : Text) :
+    replacesHandler writers name = false := by
+  have he : writers = handlerConstructors := by
+    unfold handlerNotReplaced at hw
+    exact eq_of_beq hw
+  subst he
+  have h1 : name ++ t!".func1" ≠ t!"NewSSEServer" :=
+    append_ne_of_last name _ _ 49 114 (by decide) (by decide) (by decide)
+  have h2 : name ++ t!".func1" ≠ t!"Server.initComponents" :=
+    append_ne_of_last name _ _ 49 115 (by decide) (by decide) (by decide)
+  simp [replacesHandler, handlerConstructors, h1, h2]
+
+private theorem foldl_sseX (ws : List Text) (hr : ∀ n, replacesHandler ws n = false) (opts : List Opt) (reg : List Stage) :
+    opts.foldl (sseOptStep ws) reg = reg ++ (Opt.groups opts).flatten := by
+  induction opts generalizing reg with
+  | nil => simp [Opt.groups]
+  | cons o opts ih =>
+    rw [List.foldl_cons, ih]
+    cases o with
+    | mw ms => simp [sseOptStep, Opt.groups, foldl_use]
+    | other n => simp [sseOptStep, Opt.groups, hr n]
+
+/-- **Registration does not depend on the other options.** When nothing but the constructors writes the handler field,
+    a server built from ANY interleaving of middleware options with any other options registers exactly the
+    concatenation of the middleware options, in their order — on both servers. -/
+theorem C15_other_options_irrelevant (writers : List Text) (hw : handlerNotReplaced writers = true) (tr : Transport)
+    (opts : List Opt) : registeredX writers tr opts = (Opt.groups opts).flatten := by
+  cases tr with
+  | streamable => simp [registeredX, newServerX, C15_registration]
+  | sse =>
+    have := foldl_sseX writers (no_option_replaces writers hw) opts []
+    simp only [List.nil_append] at this
+    exact this
+
+/-- … hence every message is served exactly as by the server built from the middleware options alone: all theorems
+    about `serve` / `run` hold for every position of the middleware options among the other options. -/
+theorem C15_option_order (f : Facts) (writers : List Text) (hw : handlerNotReplaced writers = true) (tr : Transport)
+    (opts : List Opt) (h : Req → Out) (m : Msg) :
+    serveX f writers tr opts h m = serve f tr (Opt.groups opts) h m := by
+  have hr : registeredX writers tr opts = registered tr (Opt.groups opts) := by
+    rw [C15_other_options_irrelevant writers hw tr opts]
+    cases tr <;> simp [registered, C15_registration]
+  cases m <;> simp [serveX, serve, hr]
+
+/-- The model family is not trivial in the fact: were the closure of `WithSSEServerLogger` among the writers of the
+    field, the predicate rejects the table, and a middleware registered before that option would be lost on the legacy
+    SSE server (not on the Streamable one, whose handler is created after the options). -/
+theorem C15_handler_replaced_witness :
+    let ws := [t!"NewSSEServer", t!"Server.initComponents", t!"WithSSEServerLogger.func1"]
+    handlerNotReplaced ws = false
+    ∧ newSSEServerX ws [.mw [⟨0, .pass⟩], .other t!"WithSSEServerLogger", .mw [⟨1, .pass⟩]] = [⟨1, .pass⟩]
+    ∧ newSSEServerX ws [.other t!"WithSSEServerLogger", .mw [⟨0, .pass⟩], .mw [⟨1, .pass⟩]] = [⟨0, .pass⟩, ⟨1, .pass⟩]
+    ∧ registeredX ws .streamable [.mw [⟨0, .pass⟩], .other t!"WithSSEServerLogger", .mw [⟨1, .pass⟩]] = [⟨0, .pass⟩, ⟨1, .pass⟩] := by
+  decide
+
 /-! ## the facts of today's source -/
 
 theorem C15_fact_first_registered_outermost :
@@ -422,6 +488,13 @@ theorem C15_fact_notifications_bypass : Mcp.Gen.mwNotificationsBypass = true := 
 
 theorem C15_fact_internal_error_code :
     Mcp.Gen.mwInternalCodeStreamable = -32603 ∧ Mcp.Gen.mwInternalCodeSSE = -32603 := by decide
+
+/-- **No option and no method replaces the handler** the middlewares are registered on: in today's source the field
+    `mcpHandler` is given a value by `NewSSEServer` (once) and `Server.initComponents` (once) and by nothing else. -/
+theorem C15_handler_not_replaced : handlerNotReplaced Mcp.Gen.mwHandlerWriters = true := by decide
+
+/-- … and both struct types that carry such a field are covered by that table. -/
+theorem C15_fact_handler_holders : Mcp.Gen.mwHandlerHolders = [t!"SSEServer", t!"Server"] := by decide
 
 /-- **The code as it is today** is in the compliant region (together with `C15_fact_first_registered_outermost`:
     `handleRequest` builds the chain once per request around the dispatch function and runs it once): a request against a server built from `opts` on
@@ -439,6 +512,14 @@ theorem C15_code_serve (tr : Transport) (opts : List (List Stage)) (h : Req → 
   refine ⟨?_, ?_⟩
   · simp [serve, applyMiddlewares, hreg, hfo, hcode, run]
   · simp [serve, hnb]
+
+/-- **The code as it is today, any option order**: a request against a server built from any interleaving of
+    middleware options and other options yields the onion run over the concatenated middleware options. -/
+theorem C15_code_serve_any_order (tr : Transport) (opts : List Opt) (h : Req → Out) (r : Req) :
+    serveX codeFacts codeWriters tr opts h (.request r)
+      = ((run (Opt.groups opts).flatten h r).1, some (respond (-32603) (run (Opt.groups opts).flatten h r).2)) := by
+  rw [C15_option_order codeFacts codeWriters C15_handler_not_replaced tr opts h (.request r)]
+  exact (C15_code_serve tr (Opt.groups opts) h r).1
 
 /-! ## non-vacuity: concrete instances -/
 
@@ -469,5 +550,24 @@ example :
     tags (applyMiddlewares { firstOutermost := false, notifBypass := true, codeStreamable := -32603, codeSSE := -32603 }
       [⟨0, .pass⟩, ⟨1, .pass⟩] (core (fun r => .ok (.handler r.mods) [])) {}).1
       = [.b 1, .b 0, .h, .a 0, .a 1] := by decide
+
+/-- the predicate rejects a table that contains an option closure, a method, a doubled constructor site, an unclassified
+    site, and the empty table (a renamed field); it accepts exactly the constructors. -/
+example :
+    handlerNotReplaced [t!"NewSSEServer", t!"Server.initComponents", t!"WithSSEServerLogger.func1"] = false
+    ∧ handlerNotReplaced [t!"NewSSEServer", t!"SSEServer.SetLogger", t!"Server.initComponents"] = false
+    ∧ handlerNotReplaced [t!"NewSSEServer", t!"NewSSEServer", t!"Server.initComponents"] = false
+    ∧ handlerNotReplaced [t!"NewSSEServer", t!"NewSSEServer:address-taken", t!"Server.initComponents"] = false
+    ∧ handlerNotReplaced [] = false
+    ∧ handlerNotReplaced [t!"NewSSEServer", t!"Server.initComponents"] = true := by decide
+
+/-- an interleaving on the legacy SSE server at today's facts: logger, context function and a filter between three
+    middleware options — the chain is all registered stages in order. -/
+example :
+    serveX codeFacts codeWriters .sse
+      [.mw [⟨0, .modReq⟩], .other t!"WithSSEServerLogger", .mw [⟨1, .pass⟩], .other t!"WithSSEContextFunc", .other t!"WithBasePath",
+       .mw [⟨2, .modRes⟩]] (fun r => .ok (.handler r.mods) []) (.request {}) =
+      ([.before 0 [], .before 1 [0], .before 2 [0], .handler [0], .after 2 (.ok (.handler [0]) []),
+        .after 1 (.ok (.handler [0]) [2]), .after 0 (.ok (.handler [0]) [2])], some (.result (.handler [0]) [2])) := by decide
 
 end Mcp.Props.C15
